@@ -12,12 +12,14 @@ META = dict(
                 "wherever a named deviation matters; (b) for the gateway driven by a revalidating URL-keyed HTTP cache under IPNS "
                 "re-publication, CacheCoherent / Selects / NoNeedlessBody / StoreFunctional on every history (with an as-built "
                 "control that must violate CacheCoherent). Every enumerated request and every history is replayed through "
-                "gateway.NewHandler over a BlocksBackend with a mutable name system and all response headers are compared."),
+                "gateway.NewHandler over a BlocksBackend with a mutable name system and all response headers are compared. A recorded "
+                "random client session (700 / 6000 requests across all families, both site versions, four names, four configs, "
+                "validators taken from real responses) is validated as a behaviour of the state machine by TraceGatewayCond."),
     level_note=("Trusted: net/http + httptest recorder, the harness's rendering of request classes to URL/headers and its parse of "
                 "response headers, mimetype sniffing results for the three fixture files, exact header texts of the Cache-Control "
                 "classes. Not claimed: If-None-Match: * on generated HTML, byte ranges (C30), CarBackend, subdomain/DNSLink hosts, "
                 "?download=true without ?filename on UnixFS files (as-built: ignored)."),
-    technique="TLA+ class-product enumeration with ideal + named as-built alternatives; client-cache state machine; TLC-generated cases and histories replayed via httptest",
+    technique="TLA+ class-product enumeration with ideal + named as-built alternatives; client-cache state machine; TLC-generated cases and histories replayed via httptest; recorded client sessions validated by TLC",
 )
 
 SPEC = "GatewayCond"
@@ -124,3 +126,23 @@ def run(ctx):
                              env={"X05_KIND": "hist"}) is None:
         return
     ctx.cov["exhaustive"] = True
+    # ---- T: a recorded client session (random walk over the whole alphabet, re-publications, real validators)
+    recs, out, rc = ctx.go_run(binp, "TestVerifX05", pkg=PKG, mode="record", timeout=1800)
+    if rc != 0 or not recs:
+        ctx.broken("record driver died: " + out[-1500:])
+        return
+
+    def corrupt(rs):
+        idx = [i for i, r in enumerate(rs) if r["ev"] == "Req" and r["o"]["st"] == 200 and r["o"]["cc"] in ("imm", "ttl")]
+        if not idx:
+            return None, None
+        i = idx[len(idx) // 2]
+        bad = [json.loads(json.dumps(r)) for r in rs[:i + 1]]      # a prefix is enough (and cheaper)
+        bad[i]["o"]["cc"] = "dirweek"                                # an immutable / TTL response downgraded
+        return bad, i
+    ctx.validate_trace(SPEC, "TraceGatewayCond.tla", "TraceGatewayCond.cfg", recs, negative=corrupt,
+                       count_runs=lambda rs: len(rs), timeout=3000)
+    for r in recs:
+        if r["ev"] == "Req" and (r["o"]["st"] == 304 or r["tags"]):
+            ctx.nontrivial(["T", r["q"], r["tags"], r["star"]])
+    ctx.sample(next((r for r in recs if r["ev"] == "Req" and r["o"]["st"] == 304), recs[0]))
